@@ -8,6 +8,7 @@ import (
 	"crypto/sha256"
 	"encoding/binary"
 	"fmt"
+	"hash"
 )
 
 type Folder struct {
@@ -217,4 +218,32 @@ func WithReserve(d []byte, hres, fres int) ([]byte, error) {
 		return nil, fmt.Errorf("cab: generated cabinet invalid: %v", err)
 	}
 	return out, nil
+}
+
+// AuthenticodeDigest computes the image hash of a signed cabinet the way the Windows
+// cabinet subject interface package (and osslsigncode) do: the header without the fields
+// that change when a signature is attached (reserved1, the cabinet index, the reserve
+// sizes and the first 16 bytes of the 20-byte signature reserve), every folder entry,
+// and everything from the end of the folder table up to the signature.
+func AuthenticodeDigest(d []byte, h hash.Hash) ([]byte, error) {
+	c, err := Parse(d)
+	if err != nil {
+		return nil, err
+	}
+	if c.Flags != flagReserve || len(c.HeaderReserve) != 20 || c.FolderReserve != 0 || c.DataReserve != 0 {
+		return nil, fmt.Errorf("cab: not the layout of a signed cabinet (flags %#x, header reserve %d)", c.Flags, len(c.HeaderReserve))
+	}
+	h.Write(d[0:4])   // signature
+	h.Write(d[8:16])  // cbCabinet, reserved2
+	h.Write(d[16:20]) // coffFiles
+	h.Write(d[20:32]) // reserved3, version, cFolders, cFiles, flags
+	h.Write(d[32:34]) // setID
+	h.Write(d[56:60]) // last 4 bytes of the signature reserve
+	pos := 60
+	for range c.Folders {
+		h.Write(d[pos : pos+8])
+		pos += 8
+	}
+	h.Write(d[pos:c.CabinetSize])
+	return h.Sum(nil), nil
 }
